@@ -5,15 +5,18 @@ PROP = "C07"
 
 
 def run(tier):
+    QUICK_CFGS = lambda: vfsrun.cfgs([5], [0], range(8)) + vfsrun.cfgs([5], [3], [0, 3, 6]) + vfsrun.cfgs([1, 2, 8], [0], [0, 3, 6]) + vfsrun.cfgs([8], [2], [7])
+    extra = []
     if tier == "quick":
-        cfgs = vfsrun.cfgs([5], [0], range(8)) + vfsrun.cfgs([5], [3], [0, 3, 6]) + vfsrun.cfgs([1, 2, 8], [0], [0, 3, 6]) + vfsrun.cfgs([8], [2], [7])
+        cfgs = QUICK_CFGS()
         depth = 4
     else:
         cfgs = vfsrun.cfgs([1, 2, 3, 4, 5, 6, 7, 8], [0, 2, 3], range(8))
-        depth = 5
+        depth = 4
+        extra = [(QUICK_CFGS(), 5)]      # depth 5 on the quick configuration set, depth 4 on the full set: sized to finish (see vfsrun.DEADLINE)
     deep = (vfsrun.cfgs([5], [0, 3], range(8)), 6) if tier == 'quick' else (cfgs, 7)
     return vfsrun.hist_check(
-        PROP, tier, cfgs, depth,
+        PROP, tier, cfgs, depth, extra_groups=extra,
         rule="every operation history up to the depth bound over records of framed size {1,L-1,L,L+1,L+2}, multi-byte (2-byte UTF-8) records of 3 and 5 bytes, a record with an "
              "embedded LF, day changes and restarts, for each size limit L and option set; after every operation each file the sink wrote (rotated files decompressed) is "
              "located in the written stream and must be <= L bytes or hold exactly one record; states = distinct (directory contents, day, records written)",
